@@ -81,7 +81,6 @@ def trimLeft : Str → Str
       | c :: s'' => if isSpace3 a b c then trimLeft s'' else a :: s
       | [] => a :: s
     | [] => a :: s
-termination_by s => s.length
 
 /-- trimming at the end, on the reversed string (so the byte patterns are reversed) -/
 def trimLeftRev : Str → Str
@@ -95,7 +94,6 @@ def trimLeftRev : Str → Str
       | c :: s'' => if isSpace3 c b a then trimLeftRev s'' else a :: s
       | [] => a :: s
     | [] => a :: s
-termination_by s => s.length
 
 def trimSpace (s : Str) : Str := (trimLeftRev (trimLeft s).reverse).reverse
 
